@@ -86,11 +86,13 @@ def _cmake_sources(cmakelists, target):
     return srcs
 
 
-def _prune(prefix, keep):
-    for d in glob.glob(os.path.join(BUILD, prefix + "-*")):
-        if os.path.isdir(d) and os.path.basename(d) != keep:
-            # another process may still be using an older build only if the tree changed under it; safe to drop
-            shutil.rmtree(d, ignore_errors=True)
+def _prune(prefix, keep, keep_n=2):
+    """Drops older builds of the same kind, keeping the newest few: a concurrently running check may still
+    be about to launch executables linked against the previous build."""
+    ds = [d for d in glob.glob(os.path.join(BUILD, prefix + "-*")) if os.path.isdir(d) and os.path.basename(d) != keep and not d.endswith(".tmp")]
+    ds.sort(key=lambda d: os.path.getmtime(d), reverse=True)
+    for d in ds[keep_n:]:
+        shutil.rmtree(d, ignore_errors=True)
 
 
 def _run(cmd, **kw):
